@@ -309,12 +309,15 @@ func runC07(c *Ctx) {
 		c.Min("C07.4-result-writers", 6)
 		// presence: the 'has' verdict of the find helpers
 		idF := p.Field(ldPkg + ":Element.Id")
+		doneFind := map[*ssa.Function]bool{}
 		for _, fn := range []*ssa.Function{cmpEq, cmpGt} {
-			for _, find := range fn.AnonFuncs {
+			// the find closures, or the functions they were lifted to (new since the anchor snapshot)
+			for _, find := range regionFuncs(fn)[1:] {
 				res := find.Signature.Results()
-				if res.Len() < 2 {
+				if res.Len() < 2 || doneFind[find] {
 					continue
 				}
+				doneFind[find] = true
 				if b, ok := res.At(0).Type().Underlying().(*types.Basic); !ok || b.Kind() != types.Bool {
 					continue
 				}
